@@ -13,39 +13,50 @@ import (
 	"verif/internal/vk"
 )
 
-// The expiry fixture: a second server whose sessions time out after 120 ms of
-// inactivity or 4 s of age (guard every 10 ms) and whose tokens are issued
-// already expired (TokenExpiryTimeMin = -1). "Expired" is never assumed from a
-// sleep: the harness polls the server's own session manager until the server
-// has dropped the session.
+// The expiry fixtures: two more servers (each on one shard only).
+//
+//	"idle": sessions time out after 120 ms without activity (no age limit), guard
+//	        every 10 ms; tokens are issued already expired (TokenExpiryTimeMin=-1).
+//	"age" : sessions are dropped 4 s after creation however active they are.
+//
+// "Expired" is never assumed from a sleep: the harness polls the server's own
+// session manager until the server has dropped the session.
 const (
 	expTimeout = 120 * time.Millisecond
 	expMaxAge  = 4 * time.Second
-	// if the server still knows a session that long after it went idle, expiry does
-	// not work at all (several hundred times the configured limits)
+	// if the server still knows a session that long after it should have gone,
+	// expiry does not work at all (15x the age limit, 500x the inactivity timeout)
 	expGiveUp = 60 * time.Second
 )
 
 var (
-	expOnce sync.Once
-	expEnv  *env
-	expErr  error
+	expMu   sync.Mutex
+	expEnvs = map[string]*env{}
 )
 
-func theExpiryEnv(t testing.TB) *env {
-	expOnce.Do(func() {
-		so := sessions.DefaultOptions().
-			WithSessionGuardCheckInterval(10 * time.Millisecond).
-			WithMaxSessionInactivityTime(60 * time.Millisecond).
-			WithTimeout(expTimeout).
-			WithMaxSessionAgeTime(expMaxAge).
-			WithMaxSessions(100000)
-		expEnv, expErr = newEnvWith(srvConfig{sess: so, tokenExpMin: -1}, false)
-	})
-	if expErr != nil {
-		t.Fatalf("INFRA: expiry fixture: %v", expErr)
+func theExpiryEnv(t testing.TB, kind string) *env {
+	expMu.Lock()
+	defer expMu.Unlock()
+	if e := expEnvs[kind]; e != nil {
+		return e
 	}
-	return expEnv
+	so := sessions.DefaultOptions().
+		WithSessionGuardCheckInterval(10 * time.Millisecond).
+		WithMaxSessions(100000)
+	cfg := srvConfig{sess: so, tokenExpMin: 1440}
+	switch kind {
+	case "idle":
+		so.WithMaxSessionInactivityTime(60 * time.Millisecond).WithTimeout(expTimeout).WithMaxSessionAgeTime(0)
+		cfg.tokenExpMin = -1
+	case "age":
+		so.WithMaxSessionInactivityTime(0).WithTimeout(0).WithMaxSessionAgeTime(expMaxAge)
+	}
+	e, err := newEnvWith(cfg, false)
+	if err != nil {
+		t.Fatalf("INFRA: expiry fixture (%s): %v", kind, err)
+	}
+	expEnvs[kind] = e
+	return e
 }
 
 // waitDropped polls until the server itself no longer knows the session.
@@ -65,52 +76,60 @@ func waitDropped(e *env, id string, keepAlive *cred) (time.Duration, bool) {
 
 // TestExpired: every RPC with credentials the server has expired.
 func TestExpired(t *testing.T) {
-	if vk.Shard() != 1%vk.Shards() {
-		t.Skip("runs on one shard")
+	ran := false
+	for i, kind := range []string{"idle", "age"} {
+		if vk.Shards() > 1 && vk.Shard() != (i+1)%vk.Shards() {
+			continue
+		}
+		ran = true
+		runExpired(t, kind)
 	}
+	if !ran {
+		t.Skip("runs on two shards only")
+	}
+}
+
+func runExpired(t *testing.T, kind string) {
 	us, err := universe()
 	if err != nil {
 		t.Fatal(err)
 	}
 	sp := specs()
-	e := theExpiryEnv(t)
+	e := theExpiryEnv(t, kind)
 	x := e.x
 
-	type mk struct {
-		name, user, pass, state string
-		keepAlive               bool
-	}
-	for _, m := range []mk{
-		{"immudb/session@dba[expired-idle]", sysUser, sysPass, "expired", false},
-		{"immudb/session@dba[expired-age]", sysUser, sysPass, "expired", true},
-		{"uadm/session@dba[expired-idle]", "uadm", userPw, "expired", false},
-	} {
-		c, err := x.openSession(m.user, m.pass, dbA)
+	for _, user := range []string{sysUser, "uadm"} {
+		pass := userPw
+		if user == sysUser {
+			pass = sysPass
+		}
+		name := fmt.Sprintf("%s/session@%s[expired-%s]", user, dbA, kind)
+		c, err := x.openSession(user, pass, dbA)
 		if err != nil {
 			t.Fatalf("INFRA: open session: %v", err)
 		}
 		var ka *cred
-		if m.keepAlive {
-			ka = c
+		if kind == "age" {
+			ka = c // stays active (KeepAlive every 5 ms) until the server drops it for its age
 		}
 		waited, ok := waitDropped(e, c.value, ka)
 		if !ok {
 			en := vk.NewEnum("TestExpired")
-			en.Descf("%s never expired", m.name)
-			en.Failf(t, map[string]any{"principal": m.name, "waited": waited.String(), "timeout": expTimeout.String(), "max_age": expMaxAge.String()},
-				"session %s is still known to the server %v after its last permitted activity (inactivity timeout %v, max age %v, guard every 10ms): sessions do not expire", m.name, waited, expTimeout, expMaxAge)
+			en.Descf("%s never expired", name)
+			en.Failf(t, map[string]any{"principal": name, "waited": waited.String(), "fixture": kind, "inactivity_timeout": expTimeout.String(), "max_age": expMaxAge.String()},
+				"session %s is still known to the server after %v (fixture %q: inactivity timeout %v / max age %v, guard every 10ms): sessions do not expire", name, waited, kind, expTimeout, expMaxAge)
 			return
 		}
-		t.Logf("%s dropped by the server after %v", m.name, waited)
-		e.addPrincipal(&principal{name: m.name, user: m.user, auth: "session", sel: dbA, state: m.state, c: c, live: false, sys: m.user == sysUser})
+		t.Logf("%s dropped by the server after %v", name, waited)
+		e.addPrincipal(&principal{name: name, user: user, auth: "session", sel: dbA, state: "expired-" + kind, c: c, live: false, sys: user == sysUser})
 	}
-	// a token that is expired when issued
-	{
+	if kind == "idle" {
+		// a token that is expired when issued
 		r, err := x.ic.Login(nocred(), &schema.LoginRequest{User: []byte(sysUser), Password: []byte(sysPass)})
 		if err != nil {
 			t.Fatalf("INFRA: login: %v", err)
 		}
-		e.addPrincipal(&principal{name: "immudb/token[expired]", user: sysUser, auth: "token", state: "expired", c: &cred{kind: "token", value: r.Token}, live: false, sys: true})
+		e.addPrincipal(&principal{name: "immudb/token[expired]", user: sysUser, auth: "token", state: "expired-token", c: &cred{kind: "token", value: r.Token}, live: false, sys: true})
 	}
 	e.dirty()
 
@@ -149,6 +168,6 @@ func TestExpired(t *testing.T) {
 			}
 		}
 	}
-	t.Logf("cells=%d", cells)
-	vk.SetExhaustive(fmt.Sprintf("every RPC x every variant x %d expired credentials (idle-expired and age-expired sessions, expired token)", len(e.principals)))
+	t.Logf("%s: cells=%d", kind, cells)
+	vk.SetExhaustive(fmt.Sprintf("every RPC x every variant x %d credentials expired by %s", len(e.principals), kind))
 }
